@@ -2,7 +2,7 @@
 import random, json, os, tempfile, shutil, copy, hashlib, math
 from common import *
 
-RULE = ("histories of 3-6 rebalancing runs over ONE shared cache directory (temp dir outside /repo and /verif): inputs drawn with "
+RULE = ("fixed histories (entry written under a higher threshold read under a lower one and vice versa for MCS results with a confidence in between; atom-map removal switched off/on; each also with ONE Balancer object re-used and its public attributes set between runs) and random histories of 3-6 rebalancing runs over ONE shared cache directory (temp dir outside /repo and /verif): inputs drawn with "
         "overlap from a pool of cheap reactions and two MCS-stage reactions, batch size in {None,1,2,3,5}, threshold in {0, 0.5, 0.9, 1}, "
         "list-of-str / list-of-dict with the default or a renamed reaction column; between runs an existing entry is replaced by what a "
         "killed write can leave (absent, empty, a truncated prefix -- quick: 40 offsets, thorough: EVERY prefix of one entry --, garbage, "
@@ -84,12 +84,21 @@ class Spy:
         self.bal.Balancer._Balancer__rebalance_batch = self.o_rb
 
 
-def one_run(cfg, inputs, cache_dir):
+def one_run(cfg, inputs, cache_dir, reuse=None):
+    """reuse: a dict holding one Balancer object that is re-used across the runs of a history, its public attributes
+    (confidence_threshold, remove_aam, batch_size) being SET between runs instead of passed to a fresh constructor"""
     from synrbl import Balancer
     col = cfg["col"]
     data = [({col: s} if cfg["dict"] or col != "reaction" else s) for s in inputs]
     st = {}
-    b = Balancer(reaction_col=col, confidence_threshold=cfg["t"], n_jobs=1, batch_size=cfg["bs"], cache=cache_dir is not None, cache_dir=cache_dir)
+    if reuse is not None and reuse.get("col") == col and cache_dir is not None:
+        b = reuse["obj"]
+        b.confidence_threshold = cfg["t"]; b.batch_size = cfg["bs"]; b.remove_aam = cfg.get("aam", True)
+    else:
+        b = Balancer(reaction_col=col, confidence_threshold=cfg["t"], n_jobs=1, batch_size=cfg["bs"], cache=cache_dir is not None, cache_dir=cache_dir)
+        b.remove_aam = cfg.get("aam", True)
+        if reuse is not None and cache_dir is not None:
+            reuse["obj"], reuse["col"] = b, col
     rows = b.rebalance(copy.deepcopy(data), output_dict=True, stats=st)
     # rename the reaction column back for comparison
     return pub([{("reaction" if k == col else k): v for k, v in r.items()} for r in rows]), st, data
@@ -111,6 +120,36 @@ def run(ctx):
         return uncached[k]
 
     coq_cases, meta = [], []
+    # fixed histories that need a specific order: an entry written under a HIGHER threshold read under a lower one (and the
+    # reverse) for MCS results whose confidence lies between, atom-map removal switched off and on, one object re-used
+    M = ["CC(=O)OCC>>CC(=O)O", "CCOC(=O)C>>CC(=O)O", "[CH3:1][CH2:2]Br.O>>[CH3:1][CH2:2]O"]
+    def F(t, aam=True, bs=None):
+        return {"t": t, "bs": bs, "col": "reaction", "dict": False, "aam": aam}
+    fixed = [[(F(0.5), M), (F(0), M)], [(F(0), M), (F(0.5), M), (F(0.1), M)], [(F(0.9), M[:2]), (F(0.2), M[:2]), (F(0.9), M[:2])],
+             [(F(0, aam=True), M), (F(0, aam=False), M), (F(0, aam=True), M)]]
+    for fi, fh in enumerate(fixed + fixed):
+        reuse = {} if fi >= len(fixed) else None
+        tmp = tempfile.mkdtemp(prefix="synrbl_c12f_")
+        try:
+            hist = []
+            for cfg, inputs in fh:
+                case = {"history": [[c, i] for c, i in hist], "run": [cfg, inputs], "one_balancer_object_reused": reuse is not None}
+                try:
+                    with contextlib.redirect_stderr(io.StringIO()):
+                        rows, st, _ = one_run(cfg, inputs, tmp, reuse)
+                        rrows, rst = one_run(cfg, inputs, None)[:2]
+                except Exception as e:
+                    ctx.fail("cached-run-raised", case, {"error": "%s: %s" % (type(e).__name__, str(e)[:200])})
+                    break
+                ctx.evaluations += 1
+                ctx.count("fixed", "runs")
+                if hist:
+                    ctx.nontrivial.add(json.dumps(case, sort_keys=True))
+                if rows != rrows or st != rst:
+                    ctx.fail("cached-run-differs-from-uncached", case, {"cached": rows[:3], "uncached": rrows[:3], "cached_stats": st, "uncached_stats": rst})
+                hist.append((cfg, inputs))
+        finally:
+            shutil.rmtree(tmp, ignore_errors=True)
     for h in range(nh):
         tmp = tempfile.mkdtemp(prefix="synrbl_c12_")
         spy = Spy()
